@@ -721,6 +721,12 @@ def suite_C04(g, tier):
             encs.append((le(struct_val(rng) | (rng.randrange(2) << 255)), "struct"))
         else:
             encs.append((le(sparse_val(rng) | (rng.randrange(2) << 255)), "sparse"))
+    # single-bit y (and its complement within the field size), both signs
+    for b in (range(0, 256, 3) if tier == "quick" else range(256)):
+        encs.append((le(1 << b), "bit"))
+        encs.append((le(((1 << b) | (1 << 255)) % 2**256), "bit"))
+        if tier != "quick":
+            encs.append((le((2**255 - 1) ^ (1 << b)) if b < 255 else le(2**255 - 1), "bit"))
     # small |x| and small y, both signs
     lim = 20 if tier == "quick" else 400
     for x in range(lim):
@@ -981,6 +987,25 @@ def suite_C07(g, tier):
             p.op("Scalar.SetCanonicalBytes", r="s5", a=["b1"])
             p.op("Scalar.Equal", r=r, a=["s5"])
             p.op("Scalar.Equal", r="s5", a=[r])
+    # tiny and extreme Montgomery representatives (value = w * 2^-256 mod l for w = 0, 1, 2, ..., l-1, l-2, 2^64, 2^128, 2^192)
+    ws = [0, 1, 2, 3, 4, 7, 8, L - 1, L - 2, 2**64, 2**64 - 1, 2**128, 2**192, 2**252, 2**252 - 1]
+    for i in range(0, len(ws), 3):
+        p = g.new("C07 extreme Montgomery representatives")
+        load_scalar(p, "s3", scalar_val(rng) or 7, rng, "canon")
+        for w in ws[i:i + 3]:
+            load_scalar(p, "s0", w * RINV % L, rng, "canon")
+            p.op("Scalar.Invert", r="s1", a=["s0"])
+            p.op("Scalar.Invert", r="s0", a=["s0"])
+            load_scalar(p, "s0", w * RINV % L, rng, "canon")
+            p.op("Scalar.Negate", r="s1", a=["s0"])
+            p.op("Scalar.Multiply", r="s2", a=["s0", "s3"])
+            p.op("Scalar.Multiply", r="s2", a=["s0", "s0"])
+            p.op("Scalar.Add", r="s2", a=["s0", "s3"])
+            p.op("Scalar.Subtract", r="s2", a=["s3", "s0"])
+            p.op("Scalar.MultiplyAdd", r="s2", a=["s0", "s3", "s0"])
+            p.op("Scalar.Equal", r="s0", a=["s1"])
+            p.op("Scalar.Bytes", r="s0", o=["b0"])
+            p.op("Point.ScalarBaseMult", r="p0", a=["s0"])
     # operations that produce zero, then comparisons and further arithmetic on the result
     for zsrc in ["neg0", "sub", "mul0", "inv0", "new", "madd"]:
         p = g.new("C07 zero produced by %s" % zsrc)
@@ -1118,6 +1143,20 @@ def suite_C08(g, tier):
             p.buf("b%d" % k, s, cap=cap, tail=tail)
             p.op("Scalar.SetBytesWithClamping", r=r, a=["b%d" % k])
             p.op("Scalar.Bytes", r=r, o=["b7"])
+    # basis vectors (single-bit inputs) for the three decoders
+    for base in range(0, 512, 64):
+        p = g.new("C08 single-bit wide inputs %d.." % base)
+        for b in range(base, base + 64):
+            p.buf("b0", le(1 << b, 64))
+            p.op("Scalar.SetUniformBytes", r="s0", a=["b0"])
+            p.op("Scalar.Bytes", r="s0", o=["b1"])
+    for base in range(0, 256, 64):
+        p = g.new("C08 single-bit canonical / clamped inputs %d.." % base)
+        for b in range(base, base + 64):
+            p.buf("b0", le(1 << b))
+            p.op("Scalar.SetCanonicalBytes", r="s0", a=["b0"])
+            p.op("Scalar.SetBytesWithClamping", r="s1", a=["b0"])
+            p.op("Scalar.Bytes", r="s1", o=["b1"])
     # every other length, for the three setters
     lens = list(range(0, 34)) + [63, 64, 65, 66, 96, 128, 130]
     for op in ["Scalar.SetCanonicalBytes", "Scalar.SetUniformBytes", "Scalar.SetBytesWithClamping"]:
@@ -1454,6 +1493,24 @@ def suite_C10(g, tier):
             for k, ln in enumerate(lens[i:i + 6]):
                 p.buf("b%d" % k, bytes(rng.randrange(256) for _ in range(ln)), cap=rng.choice([None, ln + 9]))
                 p.op(op, r="e0", a=["b%d" % k])
+    # basis vectors: the decoders select bits, so they are determined by what they do with every single-bit input
+    for base in range(0, 256, 32):
+        p = g.new("C10 SetBytes single-bit inputs %d.." % base)
+        for b in range(base, base + 32):
+            p.buf("b0", le(1 << b))
+            p.op("Elem.SetBytes", r="e0", a=["b0"])
+            p.op("Elem.Bytes", r="e0", o=["b1"])
+    for base in range(0, 512, 32):
+        p = g.new("C10 SetWideBytes single-bit inputs %d.." % base)
+        for b in range(base, base + 32):
+            p.buf("b0", le(1 << b, 64))
+            p.op("Elem.SetWideBytes", r="e0", a=["b0"])
+            p.op("Elem.Bytes", r="e0", o=["b1"])
+        # and the complement (all ones except one bit) for a few positions
+        for b in rng.sample(range(base, base + 32), 4):
+            p.buf("b0", le((2**512 - 1) ^ (1 << b), 64))
+            p.op("Elem.SetWideBytes", r="e0", a=["b0"])
+            p.op("Elem.Bytes", r="e0", o=["b1"])
     ns = 20 if tier == "quick" else 800
     for it in range(ns):
         p = g.new("C10 SetBytes structured")
